@@ -93,10 +93,14 @@ func (f *rawFileWriter) Close() error {
 	terminator := &Item{}
 
 	if err := f.WriteItem(terminator); err != nil {
+		f.fd.Close()
 		return err
 	}
 
-	f.w.Flush()
+	if err := f.w.Flush(); err != nil {
+		f.fd.Close()
+		return err
+	}
 	return f.fd.Close()
 }
 
